@@ -731,3 +731,25 @@ def _all_c(interp, args, kwargs):
 
 
 LIB['numpy.any'], LIB['numpy.all'] = _any_c, _all_c
+
+
+@model('numpy.cumsum', 'np.cumsum(a) of a 1-D sequence of k numbers (k concrete): the k running sums')
+def _np_cumsum(interp, args, kwargs):
+    from .engine import num_binop
+    (x,) = args
+    el = _elements(x)
+    if kwargs or el is None:
+        raise Unsupported('np.cumsum shape')
+    out, acc = [], None
+    for v in el:
+        acc = v if acc is None else num_binop(interp.ctx, 'Add', acc, v)
+        out.append(acc)
+    return CArr(out, 'float')
+
+
+@model('numpy.zeros', 'np.zeros(k) with a concrete int k: k float zeros')
+def _np_zeros(interp, args, kwargs):
+    (k,) = args
+    if kwargs or not isinstance(k, int) or k < 0:
+        raise Unsupported('np.zeros shape')
+    return CArr([SFloat(0, False, 'npfloat') for _ in range(k)], 'float')
